@@ -1,9 +1,13 @@
 (* C01 — ordered-map equivalence under background maintenance.
-   FULL STATEMENT (not yet a theorem; decided by the differential check against the extracted model):
-     for every program p, every keyspace h, the reads of [run as_is init p] equal those of a sorted map
-     updated by the write operations of p, with rotate / flush / compaction steps changing nothing.
-   Proved parts below are named ..._partial. *)
-From FJ Require Import Bytes Codec Lsm Tracker Db LsmP TxP MapP OrderP DbOrderP.
+   FULL STATEMENT, now a theorem over the database model (C01_refines_reference_map, C01_scan_is_the_sorted_map below):
+     for every program of keyspace creation, writes, batches (hence transaction commits), clears, bulk ingestion, memtable
+     rotation, worker steps (flush, journal sealing, journal eviction), drains and major compaction, the latest point read of
+     every key in every keyspace equals a reference map updated by the write operations alone — rotate / flush / compaction /
+     maintenance steps change nothing — and a scan is exactly that map in key order.
+   Not in the theorem (decided by the differential check): reopen (C04), keyspace deletion (C12), compaction filters (C18),
+   the iterator plumbing above scan_ents (ranges, prefix, reverse, two-ended consumption), key-value separation. *)
+From FJ Require Import Bytes Codec Reader Lsm Tracker Db LsmP TxP MapP OrderP DbOrderP SortP RefineP.
+From Coq Require Import Sorted.
 
 (* a write (insert / remove / batch item) with a seqno above everything in the active memtable: the point
    read of the written key returns the written value (absence for a tombstone); other keys are untouched *)
@@ -63,6 +67,71 @@ Theorem C01_shadowing_refuted_without_recency :
   value_of (newest [107] 10 (v_all shadow_tree (latest shadow_tree))) = Some [2].
 Proof. exact shadow_disagrees. Qed.
 
+(* ---- the refinement ---- *)
+(* one step of the database model = one step of the reference maps (sstep, RefineP.v: a write sets its key, a refused write
+   changes nothing, a batch is its items in order, clear empties, ingestion overlays, everything else is the identity) *)
+Theorem C01_step_refines : forall (I : N) (d : db) (o : wop),
+  DInv d -> nofilter d -> d_seqno (wstep d o) <= I ->
+  forall id k, absd I (wstep d o) id k = sstep d o (absd I d) id k.
+Proof. exact wstep_refines. Qed.
+
+(* every program from the empty database, every keyspace id, every key, every read instant not below the seqno counter *)
+Theorem C01_refines_reference_map : forall (mode : dbmode) (ops : list wop) (I : N) (id : N) (k : bytes),
+  let d := fold_left wstep ops (db_init mode []) in
+  d_seqno d <= I -> absd I d id k = srun (db_init mode []) ops sempty id k.
+Proof. exact db_refines. Qed.
+
+(* ... stated with the model's own read functions (t_get / t_scan: select the super-version for the instant, then first hit /
+   merge): after EVERY program, for every keyspace object that is the registered one for its id, a point read at any instant
+   at or above the seqno counter (Keyspace::get / iter read at SeqNo::MAX) returns the reference map's value, and a scan
+   returns the reference map as a strictly ascending list *)
+Theorem C01_reads_refine : forall (mode : dbmode) (ops : list wop) (I : N) (ks : kspace) (k : bytes),
+  let d := fold_left wstep ops (db_init mode []) in
+  In ks (d_kss d) -> d_seqno d <= I -> kfind (d_kss d) (k_id ks) = Some ks ->
+  t_get (k_tree ks) k I = Some (srun (db_init mode []) ops sempty (k_id ks) k) /\
+  exists sc, t_scan (k_tree ks) I = Some sc /\
+             StronglySorted (fun a b => bytes_ltb (fst a) (fst b) = true) sc /\
+             forall k' v, In (k', v) sc <-> srun (db_init mode []) ops sempty (k_id ks) k' = Some v.
+Proof. exact db_reads_refine. Qed.
+
+(* maintenance is invisible: these five operations are the identity of the reference step, by definition of sstep *)
+Theorem C01_maintenance_invisible : forall (d : db) (m : smap) (id : N) (fuel : nat) (ev : bool),
+  sstep d (WRotate' id) m = m /\ sstep d WStep m = m /\ sstep d (WDrain fuel) m = m /\ sstep d (WMajor id ev) m = m.
+Proof. intros. repeat split. Qed.
+
+(* a scan of the latest version is strictly ascending in the key order and contains (k, v) exactly when the point read of k
+   returns v: it is the reference map as a sorted list *)
+Theorem C01_scan_is_the_sorted_map : forall (I : N) (d : db) (ks : kspace),
+  DInv d -> In ks (d_kss d) ->
+  let sc := scan_ents (v_all (k_tree ks) (latest (k_tree ks))) I in
+  StronglySorted (fun a b => bytes_ltb (fst a) (fst b) = true) sc /\
+  forall k v, In (k, v) sc <-> abs I (k_tree ks) k = Some v.
+Proof. intros I d ks H Iks sc. split; [apply scan_sorted|intros k v; apply (scan_matches_reads I d ks k v H Iks)]. Qed.
+
+(* the invariant of the two theorems above holds in every reachable state *)
+Theorem C01_invariant_reachable : forall mode ops, DInv (fold_left wstep ops (db_init mode [])) /\ NF (fold_left wstep ops (db_init mode [])).
+Proof. intros. split; [apply wrun_dinv, dinv_init|apply run_nf, nf_init]. Qed.
+
+(* what the merged flush / compaction stream leaves of a key, for a reader above every seqno in the input: without a filter
+   the same value (the newest version itself, or nothing when that was a tombstone evicted at the last level) *)
+Theorem C01_gc_stream_keeps_values : forall (W : N) (ev : bool) (k : bytes) (I : N) (l : list ent),
+  all_below I l -> value_of (newest k I (gc_stream W ev None l)) = value_of (newest k I l).
+Proof. exact gc_stream_value. Qed.
+
+Theorem C01_refines_example :
+  let d := fold_left wstep db_example (db_init MPlain []) in
+  d_seqno d <= 100 /\ absd 100 d 1 [105] = Some [9] /\ srun (db_init MPlain []) db_example sempty 1 [105] = Some [9] /\
+  srun (db_init MPlain []) db_example sempty 1 [107] = None.
+Proof. exact refine_example. Qed.
+
+Print Assumptions C01_step_refines.
+Print Assumptions C01_refines_reference_map.
+Print Assumptions C01_reads_refine.
+Print Assumptions C01_maintenance_invisible.
+Print Assumptions C01_scan_is_the_sorted_map.
+Print Assumptions C01_invariant_reachable.
+Print Assumptions C01_gc_stream_keeps_values.
+Print Assumptions C01_refines_example.
 Print Assumptions C01_write_point_read_partial.
 Print Assumptions C01_gc_keeps_newest_partial.
 Print Assumptions C01_point_read_agrees_with_scan_partial.
